@@ -104,6 +104,7 @@ type c07Expr struct {
 	wraps  []int // per operand slot
 	toks   []string
 	want   *pt
+	leaves []string
 	target string // "" | "unassignable" | "cast" : weakest classification of the assignment targets
 }
 
@@ -140,8 +141,22 @@ func c07Climb(operands []*pt, ops []string) *pt {
 var c07Names = []string{"a", "b", "c", "d", "e"}
 
 // c07Build generates the expression for the operator tuple and wrapper assignment.
-func c07Build(ops []string, wraps []int) c07Expr {
-	e := c07Expr{ops: ops, wraps: wraps}
+func c07Build(ops []string, wraps []int) c07Expr { return c07BuildLeaves(ops, wraps, c07Names) }
+
+// c07LitLeaves are the operand vocabularies of the literal-operand scenario: a prefix or infix
+// operator binds to a literal operand exactly as it binds to a name.
+var c07LitLeaves = [][]string{
+	{"1", "2", "3", "4", "5"},
+	{"1.5", "2.5", "3.5", "4.5", "5.5"},
+	{"true", "2", "\"s\"", "none", "null"},
+	{"a", "2", "c", "2.5", "e"},
+	{"1", "b", "3.5", "d", "5"},
+}
+
+func c07IsName(leaf string) bool { return len(leaf) == 1 && leaf[0] >= 'a' && leaf[0] <= 'e' }
+
+func c07BuildLeaves(ops []string, wraps []int, leaves []string) c07Expr {
+	e := c07Expr{ops: ops, wraps: wraps, leaves: leaves}
 	var operands []*pt
 	for i := 0; i <= len(ops); i++ {
 		if i > 0 {
@@ -157,8 +172,8 @@ func c07Build(ops []string, wraps []int) c07Expr {
 		for _, pc := range w.pre {
 			e.toks = append(e.toks, string(pc))
 		}
-		e.toks = append(e.toks, c07Names[i])
-		n := &pt{leaf: c07Names[i], lo: len(e.toks) - 1, hi: len(e.toks) - 1}
+		e.toks = append(e.toks, leaves[i])
+		n := &pt{leaf: leaves[i], lo: len(e.toks) - 1, hi: len(e.toks) - 1}
 		switch w.post {
 		case "()":
 			e.toks = append(e.toks, "(", ")")
@@ -181,6 +196,8 @@ func c07Build(ops []string, wraps []int) c07Expr {
 			return
 		}
 		switch l := n.kids[0]; {
+		case l.op == "" && !c07IsName(l.leaf):
+			e.target = "unassignable"
 		case l.op == "" || l.op == "index" || l.op == ".":
 		case l.op == "as":
 			if e.target == "" {
@@ -207,6 +224,9 @@ func (e c07Expr) tags() []string {
 			seen[n] = true
 			tags = append(tags, "operand:"+n)
 		}
+	}
+	if len(e.leaves) > 0 && !c07IsName(e.leaves[1]) || len(e.leaves) > 0 && !c07IsName(e.leaves[0]) {
+		tags = append(tags, "leaves:"+strings.Join(e.leaves[:3], ","))
 	}
 	return tags
 }
@@ -333,6 +353,7 @@ func c07PrecBlocks(tier string) []c07Block {
 	return bs
 }
 
+var c07LitBlocks = []c07Block{{n: 1, single: true}, {n: 2, single: true}, {n: 3}}
 var c07LayoutBlocks = []c07Block{{n: 1}, {n: 2, plain: true}, {n: 3, plain: true}}
 var c07ParenBlocks = []c07Block{{n: 1, single: true}, {n: 2, single: true}, {n: 3, plain: true}}
 var c07Paren2Blocks = []c07Block{{n: 1}, {n: 2, plain: true}}
@@ -704,6 +725,15 @@ func init() {
 					return
 				}
 				c07Precedence(e, r)
+			}},
+			{Name: "precedence-literal-operands", Count: func(string) int { return c07BlocksCount(c07LitBlocks) * len(c07LitLeaves) }, Run: func(tier string, idx int, r *Result) {
+				d := radix(idx, len(c07LitLeaves), c07BlocksCount(c07LitBlocks))
+				e, ok := c07Blocks(c07LitBlocks, d[1])
+				if !ok {
+					r.Note("inapplicable", 1)
+					return
+				}
+				c07Precedence(c07BuildLeaves(e.ops, e.wraps, c07LitLeaves[d[0]]), r)
 			}},
 			{Name: "block-like-operands", Count: func(string) int { return c07BlockCount() }, Run: func(_ string, idx int, r *Result) { c07BlockRun(idx, r) }},
 			{Name: "layout-separators", Count: func(string) int { return c07BlocksCount(c07LayoutBlocks) * nseps * (c07MaxGaps + 1) }, Run: func(tier string, idx int, r *Result) {
